@@ -4,6 +4,7 @@ import itertools
 import os
 import random
 
+from .. import suiteengine
 from ..common import new_scratch, rmtree, split_seeds, clear_atexit_tmp_handlers, ncpu
 from ..gen import make_content, object_menu, random_object_op, random_meta_op, op_shape, chunk
 from ..runner import ShardResult
@@ -45,6 +46,7 @@ def shards(tier, seed):
     nrand = 240 if tier == "quick" else 6000
     for i, s in enumerate(split_seeds(seed * 1000 + 5, n)):
         out.append(("rand", nrand // n, None, s))
+    out.append(("suite", 0, None, 0))
     return out
 
 
@@ -97,6 +99,10 @@ DOCS = {"d1": b"<a/>", "d2": make_content(3, 9000), "d0": b""}
 
 def run_shard(mode, n, firsts, sub_seed):
     res = ShardResult()
+    if mode == "suite":
+        # the repository's own tests as one more workload: the structural invariant must survive every public call
+        suiteengine.run(res, ID)
+        return res
     scratch = new_scratch("c05")
     contents = {k: make_content(v["cseed"], v["size"]) for k, v in SPEC.items()}
     try:
